@@ -883,10 +883,10 @@ func c06compile(text string, isBool bool) *c06env {
 			}
 		}
 	}
-	env.sel = streamsql.New(streamsql.WithDiscardLog())
+	env.sel = streamsql.New(presetOpt(), streamsql.WithDiscardLog())
 	env.selErr = env.sel.Execute(sql)
 	if isBool {
-		env.whr = streamsql.New(streamsql.WithDiscardLog())
+		env.whr = streamsql.New(presetOpt(), streamsql.WithDiscardLog())
 		if err := env.whr.Execute("SELECT " + c06n("b") + " FROM stream WHERE " + text); err != nil {
 			env.whrState = "rej"
 		} else {
